@@ -534,8 +534,8 @@ def trace_check(ctx, model_ok):
     import time as _t
     from props.c02 import fwdmodel as FM
     shards = core.NPROC
-    per_round = 250 if ctx.tier == "quick" else 1000
-    rounds = 1 if ctx.tier == "quick" else 12
+    per_round = 200 if ctx.tier == "quick" else 1000
+    rounds = 1 if ctx.tier == "quick" else int(os.environ.get("C02_THOROUGH_ROUNDS", "8"))
     binp = ctx.bin_path("h_fwd")
     agg = collections.Counter()
     violating, items = [], []
